@@ -17,6 +17,46 @@ type Graph struct {
 	idom   []int // immediate dominator by block index (-1 for entry/unreachable)
 	sites  []*Site
 	byNode map[ast.Node]*Site
+	// caseTag maps each case expression of a tagged `switch tag { case e: }` to
+	// its tag, so that the branching condition can be presented as `tag == e`.
+	caseTag map[ast.Expr]ast.Expr
+}
+
+// CondOf returns the branching condition of a two-successor block, or nil.
+// For a case of a tagged switch this is the bare case expression; Gate.Tag /
+// Gate.Full give the tag and the synthesised `tag == expr`.
+func (g *Graph) CondOf(b *cfg.Block) ast.Expr {
+	if !b.Live || len(b.Succs) != 2 || len(b.Nodes) == 0 {
+		return nil
+	}
+	cond, ok := b.Nodes[len(b.Nodes)-1].(ast.Expr)
+	if !ok {
+		return nil
+	}
+	if g.caseTag == nil {
+		g.caseTag = map[ast.Expr]ast.Expr{}
+		inspectBody(g.Fn, func(n ast.Node) {
+			sw, ok := n.(*ast.SwitchStmt)
+			if !ok || sw.Tag == nil {
+				return
+			}
+			for _, cl := range sw.Body.List {
+				for _, e := range cl.(*ast.CaseClause).List {
+					g.caseTag[e] = sw.Tag
+				}
+			}
+		})
+	}
+	return cond
+}
+
+// TagOf returns the tag expression when cond is a case expression of a tagged
+// switch (go/cfg records only the case expression as the branching node), else nil.
+func (g *Graph) TagOf(cond ast.Expr) ast.Expr {
+	if g.caseTag == nil {
+		return nil
+	}
+	return g.caseTag[cond]
 }
 
 // Site is one AST node of interest (normally a call) located in the CFG.
@@ -484,11 +524,8 @@ func (g *Graph) CheckedGuard(guard, target *Site) GuardResult {
 		return found
 	}
 	for _, c := range g.CFG.Blocks {
-		if !c.Live || len(c.Succs) != 2 || len(c.Nodes) == 0 {
-			continue
-		}
-		cond, ok := c.Nodes[len(c.Nodes)-1].(ast.Expr)
-		if !ok || !mentions(cond) {
+		cond := g.CondOf(c)
+		if cond == nil || !mentions(cond) {
 			continue
 		}
 		if !(c == guard.Block || g.BlockDominates(guard.Block, c)) {
@@ -531,11 +568,8 @@ func containsNode(root, n ast.Node) bool {
 // `if part.Index >= ps.total { return }`.
 func (g *Graph) CondGates(target *Site, pred func(ast.Expr) bool) GuardResult {
 	for _, c := range g.CFG.Blocks {
-		if !c.Live || len(c.Succs) != 2 || len(c.Nodes) == 0 {
-			continue
-		}
-		cond, ok := c.Nodes[len(c.Nodes)-1].(ast.Expr)
-		if !ok || !pred(cond) {
+		cond := g.CondOf(c)
+		if cond == nil || !pred(cond) {
 			continue
 		}
 		if c == target.Block {
